@@ -212,6 +212,7 @@ class Inference:
                 npu_written = (arena >> 20 >= lo_uid) & (arena >> 20 < hi_uid) & (arena >= 0)
                 if npu_written.any():
                     self.arena_touch_max = max(self.arena_touch_max, int(np.nonzero(npu_written)[0].max()) + 1)
+                partial = {}
                 for ti in e["outputs"]:
                     t = m.tensors[ti]
                     o = offs[ti]
@@ -219,25 +220,28 @@ class Inference:
                         self.v(prop="C12", oracle="npu_output_not_in_arena", op=op.idx, tensor=ti)
                         continue
                     seg = npu_written[o:o + t.nbytes()]
-                    if not seg.all():
+                    if not seg.any():
                         # a memory-only operator absorbed into the NPU region may publish its output as an alias of one of
                         # the operator's own inputs (same offset, same bytes, never written): accept exactly that
                         cands = [tj for tj in e["fm_inputs"] if offs[tj] == o and m.tensors[tj].nbytes() == t.nbytes()
-                                 and not seg.any() and (arena[o:o + t.nbytes()] == own(tj)).all()]
+                                 and (arena[o:o + t.nbytes()] == own(tj)).all()]
                         if cands:
                             alias[ti] = root(cands[0])
                             self.stats["aliased_outputs"] = self.stats.get("aliased_outputs", 0) + 1
                             continue
-                        i = int(np.argmin(seg))
-                        self.v(prop="C03", oracle="npu_output_not_fully_written", op=op.idx, tensor=ti, tname=t.name, offset=o + i,
-                               n_missing=int((~seg).sum()), found_tag=int(arena[o + i]))
-                # live tensors that are neither inputs nor outputs of this operator must not have been written by it
+                    # bytes this operator did not write keep their previous state (another subgraph may complete the tensor);
+                    # whoever consumes an undefined byte is reported at the point of consumption
+                    partial[ti] = seg.copy()
+                # scratch bytes written by this operator that belong to none of its outputs are dead afterwards
                 arena[npu_written] = DEAD
                 for ti in e["outputs"]:
                     o = offs[ti]
                     if o >= 0:
-                        if ti not in alias:
-                            arena[o:o + m.tensors[ti].nbytes()] = owner(ti)
+                        if ti in partial:
+                            view = arena[o:o + m.tensors[ti].nbytes()]
+                            view[partial[ti]] = owner(ti)
+                            if not partial[ti].all():
+                                self.stats["partially_written_outputs"] = self.stats.get("partially_written_outputs", 0) + 1
                         produced.add(ti)
             else:
                 self.stats["cpu_ops"] += 1
